@@ -54,6 +54,12 @@ impl ByteReader {
         ensures old(self).rest().len() >= 4 ==> r is Ok && final(buf)@ == old(self).rest().subrange(0, 4) && final(self).rest() == old(self).rest().subrange(4, old(self).rest().len() as int),
                 old(self).rest().len() < 4 ==> r is Err && is_eof(r->Err_0),
     { unimplemented!() }
+    /// Read::read: ASSUMED std contract - transfers SOME prefix of what is left (possibly fewer bytes than the buffer holds; 0 only at end of file)
+    #[verifier::external_body] fn read4(&mut self, buf: &mut [u8; 4]) -> (r: std::result::Result<usize, IoErr>)
+        ensures r is Ok, r->Ok_0 <= 4, r->Ok_0 <= old(self).rest().len(), r->Ok_0 == 0 ==> old(self).rest().len() == 0,
+                final(buf)@.subrange(0, r->Ok_0 as int) == old(self).rest().subrange(0, r->Ok_0 as int),
+                final(self).rest() == old(self).rest().subrange(r->Ok_0 as int, old(self).rest().len() as int),
+    { unimplemented!() }
     #[verifier::external_body] fn read_exact_vec(&mut self, buf: &mut Vec<u8>) -> (r: std::result::Result<(), IoErr>)
         ensures final(buf)@.len() == old(buf)@.len(),
                 old(self).rest().len() >= old(buf)@.len() ==> r is Ok && final(buf)@ == old(self).rest().subrange(0, old(buf)@.len() as int)
@@ -249,11 +255,18 @@ def io_rules(f):
         if n in vec:
             return 'reader.read_exact_vec(&mut %s)' % n
         raise LostAnchor('rule R31: read_exact into `%s`, whose declaration is neither `[0u8; 4]` nor `vec![0u8; n]`' % n)
-    f.resub('R31', r'reader\.read_exact\(&mut (\w+)\)', rd)
+    f.resub_opt('R31', r'reader\.read_exact\(&mut (\w+)\)', rd)
+
+    def rd_plain(m):
+        n = m.group(1)
+        if n in arr:
+            return 'reader.read4(&mut %s)' % n
+        raise LostAnchor('rule R31: `read` into `%s`, whose declaration is not `[0u8; 4]`' % n)
+    f.resub_opt('R31', r'reader\.read\(&mut (\w+)\)', rd_plain)
     f.resub_opt('R40', r'e\.kind\(\) == std::io::ErrorKind::UnexpectedEof', 'io_is_unexpected_eof(&e)')
     f.resub_opt('R41', r'Err\(e\.into\(\)\)', 'Err(io_to_error(e))')
     # `X?;` on an io::Result inside a fn returning grafeo's Result: the definition of `?` with `From<io::Error> for Error`
-    f.resub_opt('R41', r'(reader\.read_exact\w+\(&mut \w+\))\?;', r'match \1 { Ok(v) => v, Err(e) => return Err(io_to_error(e)) };')
+    f.resub_opt('R41', r'(reader\.read\w*\(&mut \w+\))\?', r'(match \1 { Ok(v) => v, Err(e) => return Err(io_to_error(e)) })')
     f.resub('R31', r'u32::from_le_bytes\((\w+)\)', r'le_u32_of(\1)')
     f.resub('E1', r'crc32fast::hash\(&(\w+)\)', r'crc32_hash(&\1)')
     f.resub('E1', r'let \((\w+), _\): \(WalRecord, _\) =\s*bincode::serde::decode_from_slice\(&(\w+), bincode::config::standard\(\)\)\s*\.map_err\(\|e\| Error::Serialization\(e\.to_string\(\)\)\)\?;',
@@ -303,6 +316,7 @@ def build(repo):
                    ('external_body bincode_decode_record', 'E1: bincode::serde::decode_from_slice(.., standard()) is an (unknown) partial function of the bytes; trailing bytes inside the payload are ignored by it as in the source'),
                    ('external_body struct ByteReader', 'R31: stand-in for BufReader<File>; state = bytes not yet consumed'),
                    ('external_body ByteReader::read_exact4', 'ASSUMED std semantics of Read::read_exact (4-byte buffer): fills and consumes exactly 4 bytes or fails with UnexpectedEof; other I/O errors (EIO) are not modelled'),
+                   ('external_body ByteReader::read4', 'ASSUMED std semantics of Read::read (4-byte buffer): may transfer fewer bytes than asked for; 0 only at end of file'),
                    ('external_body ByteReader::read_exact_vec', 'ASSUMED std semantics of Read::read_exact (Vec buffer of the given length)'),
                    ('external_body struct PathArg', 'E1: a path'), ('external_body fs_open', 'E1: File::open + BufReader::new: a reader positioned at the start of the file\'s bytes, or an error')]:
         u.trust(w, why)
